@@ -11,6 +11,7 @@ import json
 import os
 import sys
 import time
+sys.setrecursionlimit(100000)
 
 sys.path.insert(0, os.path.dirname(os.path.abspath(__file__)))
 from vlib import core, gen, props, run  # noqa: E402
@@ -37,16 +38,16 @@ def eval_family(gens, judges=()):
 
 
 REGISTRY = {
-    "C01": eval_family([props.gen_C01]),
-    "C02": eval_family([props.gen_C02], [props.judge_pairs]),
+    "C01": eval_family([props.gen_C01, props.gen_C01_wide], [shellprops.judge_shell]),
+    "C02": eval_family([props.gen_C02, props.gen_C02_wide], [props.judge_pairs, shellprops.judge_shell]),
     "C03": eval_family([props.gen_C03]),
-    "C04": eval_family([props.gen_C04], [props.judge_groups]),
+    "C04": eval_family([props.gen_C04, props.long_wildcard_batch], [props.judge_groups]),
     "C10": eval_family([props.gen_C10, props.gen_bench_subst], [props.judge_pairs, shellprops.judge_shell]),
-    "C11": eval_family([props.gen_C11, props.gen_C11_big, props.gen_bench_laws, props.gen_library_coincidence], [props.judge_laws, shellprops.judge_shell]),
-    "C12": eval_family([props.gen_C12, props.gen_bench_patterns], [props.judge_pairs, props.judge_laws, shellprops.judge_shell]),
-    "C13": eval_family([props.gen_C13], [props.judge_laws]),
-    "C15": eval_family([props.gen_C15, props.gen_C15_batches], [props.judge_groups]),
-    "C18": eval_family([props.gen_C18], [props.judge_pairs]),
+    "C11": eval_family([props.gen_C11, props.gen_C11_big, props.gen_bench_laws, props.gen_library_coincidence, props.gen_C11_wide], [props.judge_laws, shellprops.judge_shell]),
+    "C12": eval_family([props.gen_C12, props.gen_bench_patterns, props.gen_C12_wide], [props.judge_pairs, props.judge_laws, shellprops.judge_shell]),
+    "C13": eval_family([props.gen_C13, props.gen_C13_wide], [props.judge_laws, shellprops.judge_shell]),
+    "C15": eval_family([props.gen_C15, props.gen_C15_batches, props.gen_C15_names], [props.judge_groups]),
+    "C18": eval_family([props.gen_C18], [props.judge_pairs, shellprops.judge_shell]),
 }
 REGISTRY.update(front.REGISTRY)
 REGISTRY.update(shellprops.REGISTRY)
